@@ -331,8 +331,13 @@ func runC09(r *Run) {
 				}
 			}
 		})
-		r.Check(lim["startTime <="] && lim["endTime >="], "R4", fnID(fn)+"#limits", P.Pos(fnPos(fn)), "readTime <= startTime and readTime >= endTime are handled up front",
-			fmt.Sprintf("the limit guards are %v, expected readTime <= startTime (nothing yet) and readTime >= endTime (everything)", keysOf(lim)))
+		// The loop counts an event AT readTime (it stops only where readTime < period end). The "nothing yet" shortcut has
+		// to agree with it: it may answer only for readTime < startTime. With <= a zero-length first period — which Redeem
+		// creates for the vested part of every redeemed grant — is missed at t == start and counted at start+1: a clawback
+		// in the grant's own start second takes coins that are vested. (The first form of this rule demanded <=, i.e. it
+		// pinned that defect; see DESIGN §5.)
+		r.Check(lim["startTime <"] && !lim["startTime <="] && lim["endTime >="], "R4", fnID(fn)+"#limits", P.Pos(fnPos(fn)), "readTime < startTime (nothing yet) and readTime >= endTime (everything) are handled up front",
+			fmt.Sprintf("the limit guards are %v, expected readTime < startTime (nothing yet — an event at the start time itself has happened, as the loop counts it) and readTime >= endTime (everything)", keysOf(lim)))
 	}
 	r.Rule("R7", "PATH.merge-emits-every-event: in DisjunctPeriods every function that appends to the merged period list appends on every path through it — each consumed release event of either schedule becomes a period of the result at its own time — and an already-emitted period is modified in place only where the event's time equals the time of the last emitted event (the one case in which folding two events leaves the released-by-t function unchanged)")
 	checkMergeEmits(r, "R7")
